@@ -1,7 +1,7 @@
 #!/bin/bash
 # tools/confirm_mutant.sh <ID> : confirms, in the agent's scratch worktree /tmp/wt-<ID>, that (1) the patch applies to a
 # clean HEAD, (2) the whole existing suite passes with it, (3) the demo fails with it, (4) the demo passes without it.
-ID=$1; WT=/tmp/wt-$ID; L=$(echo $ID | tr A-Z a-z)
+ID=$1; WT=${2:-/tmp/wt-$ID}; L=$(echo $ID | tr A-Z a-z)
 cd $WT || exit 2
 export CARGO_TARGET_DIR=$WT/target CARGO_NET_OFFLINE=true
 git checkout -q -- src && git apply --check demo/patch.diff || { echo "$ID patch-does-not-apply"; exit 1; }
